@@ -1800,7 +1800,8 @@ std::vector<double> GridLocalPolynomial::getSupport() const{
             break;
         case RuleLocal::erule::semilocalp:
             std::transform(work.begin(), work.end(), support.begin(),
-                           [&](int p)->double{ return RuleLocal::getSupport<RuleLocal::erule::semilocalp>(p); });
+                           [&](int p)->double{ // the quadratic functions at the two end points span the entire domain
+                               return ((p == 1) || (p == 2)) ? 2.0 : RuleLocal::getSupport<RuleLocal::erule::semilocalp>(p); });
             break;
         case RuleLocal::erule::localp0:
             std::transform(work.begin(), work.end(), support.begin(),
